@@ -37,12 +37,16 @@ def detect_asx_header(data):
 def _root_tag(data):
     """Lower-cased tag of the XML root element, or None if data is not XML.
 
-    Only the start of the document is looked at: iterparse hands out the root
-    as soon as its start tag has been read, whatever precedes it (XML
-    declaration, comments) and whatever the encoding.
+    The parser reports the root as soon as its start tag has been read,
+    whatever precedes it (XML declaration, comments) and whatever the encoding.
     """
+    # Not ET.iterparse(): returning out of its loop abandons a suspended
+    # generator, and CPython (seen with 3.12.1) can crash at interpreter exit
+    # when such a generator still holds a queued parse error.
+    parser = ET.XMLPullParser(events=["start"])
     try:
-        for _event, element in ET.iterparse(io.BytesIO(data), events=["start"]):
+        parser.feed(data)
+        for _event, element in parser.read_events():
             return element.tag.lower()
     except (ET.ParseError, LookupError, ValueError):
         # LookupError/ValueError: unknown or unsupported encoding declared
